@@ -39,8 +39,8 @@ C12CtxForms == ReadAll(C12CtxText)
 
 C12GQ == Grammar(
   <<"1", "a", ":k", "\"s\"", "~x", "~@xs", "~@em", "~@v", "~(trace! x)", "~@(trace! xs)", "unquote",
-    "splice-unquote", "x", "()", "~@x", "~@w">>,
-  <<"(_1)", "[_1]", "{:k _1}", "(a _1)", "((_1 1) (_1 a))">>,
+    "splice-unquote", "x", "()", "~@x", "~@w", "`(b ~x)">>,
+  <<"(_1)", "[_1]", "{:k _1}", "(a _1)", "((_1 1) (_1 a))", "(quasiquote _1)">>,
   <<"(_1 _2)", "[_1 _2]">>,
   <<"(_1 _2 _3)", "[_1 _2 _3]">>)
 
